@@ -38,6 +38,10 @@ def h1(ty, args, *, handlers):
 
 
 HANDLERS = {'h0': None, 'h1': h1}
+
+
+class ClsCamel(pane.PaneBase, rename='camel'):
+    ab_cd: int
 T_STR, T_INT, T_FLOAT = {'k': 'str'}, {'k': 'int'}, {'k': 'float'}
 T_MY = {'k': 'sub', 'name': 'MyInt', 'base': T_INT}
 
@@ -56,6 +60,8 @@ def fresh_type(desc: str):
         return set[int]
     if desc == 'StructAInt':
         return {'a': int}
+    if desc == 'ClsCamel':
+        return ClsCamel
     if desc == 'ListUIF':
         return list[t.Union[int, float]]
     if desc == 'ListUFI':
@@ -78,6 +84,10 @@ def abstract_type(desc: str, h: str) -> dict:
         return {'k': 'set', 'e': T_INT}
     if desc == 'StructAInt':
         return {'k': 'struct', 'fs': [['s_a', T_INT]]}
+    if desc == 'ClsCamel':
+        return {'k': 'cls', 'name': 'ClsCamel', 'fs': [{'n': 's_ab_cd', 't': T_INT, 'd': {'k': 'nodef', 'v': {'k': 'none'}}, 'kw': 'F',
+                                                         'ins': ['s_abCd'], 'out': 's_abCd', 'ex': 'F', 'init': 'T'}],
+                'inf': ['struct'], 'outf': 'struct', 'extra': 'F', 'hook': {'k': 'nohook'}}
     if desc == 'ListUIF':
         return {'k': 'list', 'e': {'k': 'union', 'alts': [T_INT, T_FLOAT]}}
     if desc == 'ListUFI':
@@ -87,7 +97,7 @@ def abstract_type(desc: str, h: str) -> dict:
     raise KeyError(desc)
 
 
-PROBES = [['a', 'b'], [3], [1, 2], {'a': 1.5}, [3, 'x'], {'a': 1}, [1.5], [1], 'zz', []]
+PROBES = [['a', 'b'], {'abCd': 1}, [3], [1, 2], {'a': 1.5}, [3, 'x'], {'a': 1}, [1.5], [1], 'zz', []]
 
 
 # ---------------------------------------------------------------------------------------
@@ -276,7 +286,7 @@ def sequential_histories(seed: int, n: int, length: int) -> tuple:
     short-lived type objects, through the public from_data."""
     import random
     rnd = random.Random(seed)
-    descs = ['ListStr', 'DictStrFloat', 'TupIntStr', 'ListMy', 'SetInt', 'StructAInt', 'ListUIF', 'ListUFI', 'ListLitFloat']
+    descs = ['ListStr', 'DictStrFloat', 'TupIntStr', 'ListMy', 'SetInt', 'StructAInt', 'ListUIF', 'ListUFI', 'ListLitFloat', 'ClsCamel']
     events, desc = [], {}
     ident = 10 ** 6
     stats = {'steps': 0, 'id_reused_for_other_type': 0}
